@@ -48,15 +48,15 @@ def rule_w1(ctx: Ctx) -> None:
     cli = repo.module("permuta.cli").functions.get("has_finitely_many_simples")
     if cli is None:
         raise AnalysisError("CLI has_finitely_many_simples vanished")
-    env = {unparse(s.targets[0]): unparse(s.value) for s in cli.body if isinstance(s, ast.Assign)}
+    from ..core import inlined_text
+
     ifs = [s for s in cli.body if isinstance(s, ast.If)]
     if len(ifs) != 1:
         raise AnalysisError(f"{cli.where}: verdict branch not recognised")
-    test = unparse(ifs[0].test)
-    for k, v in env.items():
-        test = test.replace(k, v) if k == "perm_class" else test
+    arg = cli.params[0]
+    test = inlined_text(cli, ifs[0].test).replace(f"Basis.from_string({arg}.basis)", "basis")
     pos_msg, neg_msg = unparse(ifs[0].body[0]), unparse(ifs[0].orelse[0]) if ifs[0].orelse else ""
-    if test == "Av(basis).has_finitely_many_simples()" and env.get("basis") == "Basis.from_string(args.basis)":
+    if test == "Av(basis).has_finitely_many_simples()":
         if " finitely many" in pos_msg and "infinitely many" in neg_msg and "infinitely" not in pos_msg:
             ctx.ok("C16-W1", cli.where, "CLI prints 'finitely many' exactly when Av(basis).has_finitely_many_simples()", ifs[0], cli)
         else:
@@ -132,7 +132,16 @@ def check_special(ctx: Ctx, f: FuncInfo, size: int) -> None:
     ctx.ok("C16-W3", f.where, f"table {tname}: {size} distinct valid permutations", tables[0], f)
 
 
+GENERIC_FILES = ['permuta/permutils/pin_words.py', 'permuta/perm_sets/permset.py', 'permuta/enumeration_strategies/finitely_many_simples.py', 'permuta/cli.py']
+
+
 def variants():
+    from ..selftest import generic_silent
+
+    return _variants() + generic_silent(GENERIC_FILES)
+
+
+def _variants():
     from ..selftest import V, insert_stmt, reformat_only, rename_local, replace_expr, replace_stmt
 
     PW, PS, CL, FM = "permuta/permutils/pin_words.py", "permuta/perm_sets/permset.py", "permuta/cli.py", "permuta/enumeration_strategies/finitely_many_simples.py"
